@@ -17,6 +17,9 @@ BOUNDS = {"quick": {"values": "no bound: parent scalar in [1,n-1] (32-byte and 3
                               "0..254, parent child-number, parsed fingerprint, index 0..2^32-1, all 2^512 PRF outputs, both networks",
                     "path length": "derive_path over symbolic index lists of length 0..3"},
           "thorough": {"values": "as quick", "path length": "0..5"}}
+BOUNDS_ADDED = 'leaf kept alone (root and intermediate nodes garbage-collected) via derive_path and via chained ckd, L = 1..2; the same index list object passed twice; invalid children (IL >= n, zero key) raise, also when asked twice'
+for _t in ("quick", "thorough"):
+    BOUNDS[_t]["histories, lifetimes, injected faults, boundary vectors"] = BOUNDS_ADDED
 STUBS = ["HMAC-SHA512, SHA-256, RIPEMD-160 -> uninterpreted functions", "secp256k1 (ecdsa) -> group model (Z_n,+)",
          "Base58Check -> recording summary (payload handed to the encoder is what is asserted)"]
 ASSUMPTIONS = ["valid outputs only (IL < n and child key != 0); the complement is C18",
